@@ -383,6 +383,33 @@ through real dispatch (`risk.endliq` / `risk.enddelev` lines: snapshots chosen a
 section numeric
 open Mfi.Risk Mfi.Fx
 
+/-- **start_only_when_unhealthy**: an accepted `start_liquidation` means the account's maintenance health is NOT positive
+    (weighted assets at or below weighted liabilities), and the snapshot stored for the end of the bracket is exactly
+    the maintenance and equity valuation of the portfolio at that moment -/
+theorem start_only_when_unhealthy {ps : List Pos} {c : PreCache} (h : startReceivership ps false = .ok c) :
+    ∃ cm ce, components ps .maint = .ok cm ∧ components ps .equity = .ok ce ∧
+      cm.assets - cm.liabs ≤ 0 ∧ c = { aMaint := cm.assets, lMaint := cm.liabs, aEq := ce.assets, lEq := ce.liabs } := by
+  unfold startReceivership at h
+  obtain ⟨⟨hh, a, l⟩, hpl, h⟩ := Res.bind_ok h
+  obtain ⟨ce, hce, h⟩ := Res.bind_ok h
+  injection h with h
+  unfold preLiquidation at hpl
+  obtain ⟨cm, hcm, hpl⟩ := Res.bind_ok hpl
+  obtain ⟨h2, hh2, hpl⟩ := Res.bind_ok hpl
+  have hsub : h2 = cm.assets - cm.liabs := by
+    have := Mfi.Props.C09.rmath_ok hh2
+    unfold sub? chk at this
+    split at this
+    · injection this with this; exact this.symm
+    · cases this
+  split at hpl
+  · cases hpl
+  rename_i hnot
+  injection hpl with hpl; injection hpl with _ hpl; injection hpl with ha hl
+  refine ⟨cm, ce, hcm, hce, ?_, ?_⟩
+  · simp at hnot; omega
+  · subst ha; subst hl; exact h.symm
+
 /-- what an accepted end of a receivership guarantees, whoever closes it -/
 theorem end_receivership_spec {pre : PreCache} {ps : List Pos} {ig : Bool} {seized repaid : Int}
     (h : endReceivership pre ps ig = .ok (seized, repaid)) :
